@@ -180,9 +180,11 @@ impl ServerState {
           &mut error_set,
         );
         self.string_sources.insert(new_mod_ref, source);
+        // The signature embeds the module reference in its nominal types, so it must be rebuilt
+        // for the new module reference rather than moved.
+        self.global_cx.remove(&old_mod_ref);
+        self.global_cx.insert(new_mod_ref, build_module_signature(new_mod_ref, &parsed));
         self.parsed_modules.insert(new_mod_ref, parsed);
-        let mod_cx = self.global_cx.remove(&old_mod_ref).unwrap();
-        self.global_cx.insert(new_mod_ref, mod_cx);
       }
       self.checked_modules.remove(&old_mod_ref);
     }
